@@ -279,7 +279,6 @@ Proof. unfold expire_cookie. destruct (deadline_is j k w); reflexivity. Qed.
 Definition entry_ok (kc : key * cookie) : Prop :=
   k_path (fst kc) = rstrip SLASH (c_path (snd kc)) /\
   first_is SLASH (c_path (snd kc)) = true /\
-  slash_ok (c_path (snd kc)) /\
   k_dom (fst kc) <> [] /\
   first_is DOT (k_dom (fst kc)) = false.
 
